@@ -58,7 +58,7 @@ CI_VARS = (
 def scrub_env(extra=None):
     keep = {}
     for k in os.environ:
-        if k in ("PATH", "LANG", "LC_ALL", "TMPDIR") or k.startswith(("MC_", "VERIF_")):
+        if k in ("PATH", "LANG", "LC_ALL", "TMPDIR") or k.startswith(("MC_", "VERIF_")) or (k == "PYTHONPATH" and "MC_REPO" in os.environ):
             keep[k] = os.environ[k]
     keep["HOME"] = EMPTY_HOME
     keep["XDG_CONFIG_HOME"] = EMPTY_HOME
